@@ -23,7 +23,8 @@ LEVEL = ("structural clauses (the bytes httpx sends are not decided): wire names
          "names, Content-Type from the document's own key; the model of a multipart body is flagged for to_multipart, registered, and the "
          "flag never lowered; optional arguments guarded; header values converted to str for every non-str kind allowed in headers (what "
          "transform_header writes is a str on every path and is what header_params stores); the query filter drops UNSET and nothing but UNSET / None; sync/async variants equal as token "
-         "streams; security, the credential header overwritten before both httpx clients are built; parameter identity is (name, location).")
+         "streams; security, the credential header overwritten before both httpx clients are built; parameter identity is (name, location); "
+         "whoever hands on a parameter's schema with a name / location hands on that parameter's own.")
 
 
 def _flat(atom: str) -> str:
@@ -307,11 +308,15 @@ class _Region:
         self.lc = {g.qual: Locals(g.node) for g in self.funcs}
         self.sites: dict[str, list[tuple[Any, ast.Call]]] = {}
         self._active: set[tuple] = set()
+        # functions defined inside a function of the region (closures): their statements are statements of that function (Locals walks
+        # them too), their parameters stand for what the calls made inside that function pass
+        self.nested: dict[str, list[ast.AST]] = {}
         for g in self.funcs:
             for c in calls_in(g.node):
                 h = self.helper(c)
                 if h is not None:
                     self.sites.setdefault(h.qual, []).append((g, c))
+            self.nested[g.qual] = [n for n in ast.walk(g.node) if isinstance(n, (ast.FunctionDef, ast.AsyncFunctionDef)) and n is not g.node]
 
     def helper(self, c: ast.Call) -> Any:
         """the helper of the region that the call calls (None: somebody else)"""
@@ -333,15 +338,51 @@ class _Region:
         out.update({k.arg: k.value for k in c.keywords if k.arg in names})
         return out
 
-    def passed(self, g: Any, name: str) -> list[tuple[Any, ast.AST]]:
-        """(caller, expression) of what the region passes for the parameter `name` of its helper g"""
-        if g == self.root or name not in {a.arg for a in g.params}:
-            return []
-        return [(caller, v) for caller, c in self.sites.get(g.qual, []) for v in [self.args_for(g, c).get(name)] if v is not None]
+    def results(self, h: Any) -> list[ast.AST]:
+        """what a call of the helper h is worth: the values of its return statements (a generator: see `yields`)"""
+        return [] if self.yields(h) else [r.value for r in ast.walk(h.node) if isinstance(r, ast.Return) and r.value is not None]
+
+    @staticmethod
+    def yields(h: Any) -> list[tuple[str, ast.AST]]:
+        """what iterating a call of the generator h gives: ('', V) for `yield V`, ('*', V) for `yield from V`"""
+        return [("" if isinstance(n, ast.Yield) else "*", n.value) for n in ast.walk(h.node) if isinstance(n, (ast.Yield, ast.YieldFrom)) and n.value is not None]
 
     def bindings(self, g: Any, name: str) -> list[tuple[Any, ast.AST]]:
-        """(function, expression) of what the name is in g: the values plain assignments give it, the arguments passed for it"""
-        return [(g, v) for k, _, v in self.lc[g.qual].defs.get(name, []) if k == "assign" and v is not None] + self.passed(g, name)
+        """(function, expression) of what the name is in g: the values plain assignments give it (`a, b = x, y` and `a, b = helper(...)`
+        where the helper returns a tuple: element by element), the arguments passed for it (to g when it is a helper of the region, to
+        the function defined inside g whose parameter it is)"""
+        out: list[tuple[Any, ast.AST]] = []
+        for k, _, v in self.lc[g.qual].defs.get(name, []):
+            if v is None:
+                continue
+            if k == "assign":
+                out.append((g, v))
+            elif re.fullmatch(r"assign\[\d+\]", k):
+                i = int(k[7:-1])
+                h = self.helper(v) if isinstance(v, ast.Call) else None
+                for f, t in [(g, v)] if h is None else [(h, r) for r in self.results(h)]:
+                    if isinstance(t, ast.Tuple) and i < len(t.elts) and not any(isinstance(x, ast.Starred) for x in t.elts):
+                        out.append((f, t.elts[i]))
+        return out + self.passed(g, name)
+
+    def passed(self, g: Any, name: str) -> list[tuple[Any, ast.AST]]:
+        """(caller, expression) of what is passed for the parameter `name`: by the region to its helper g, by g to the function defined
+        inside g whose parameter it is"""
+        out: list[tuple[Any, ast.AST]] = []
+        if g != self.root and name in {a.arg for a in g.params}:
+            out += [(caller, v) for caller, c in self.sites.get(g.qual, []) for v in [self.args_for(g, c).get(name)] if v is not None]
+        for d in self.nested.get(g.qual, []):
+            a = d.args
+            pos = [x.arg for x in [*a.posonlyargs, *a.args]]
+            if name not in pos and name not in [x.arg for x in a.kwonlyargs]:
+                continue
+            for c in calls_in(g.node):
+                if isinstance(c.func, ast.Name) and c.func.id == d.name:
+                    plain = c.args[:next((i for i, v in enumerate(c.args) if isinstance(v, ast.Starred)), len(c.args))]
+                    got = {**dict(zip(pos, plain)), **{k.arg: k.value for k in c.keywords if k.arg}}
+                    if name in got:
+                        out.append((g, got[name]))
+        return out
 
     def loops(self, g: Any, name: str) -> list[tuple[str, ast.AST]]:
         """(position in the target, iterable) of the for statements and comprehensions of g that bind the name: '' the target itself,
@@ -372,14 +413,19 @@ def _sources(rg: _Region, f: Any, e: ast.AST, stop: frozenset[str] = frozenset()
     """e (an expression of the function f of the region) and every expression whose value may flow into it: the definitions of the locals
     it reads, what the call sites pass for the parameters it reads, the return values of the private helpers it calls (and what flows
     into those), the module-level tables these read.  `stop`: locals that are not unfolded."""
-    out: list[ast.AST] = []
+    return [x for _, x in _sources_in(rg, f, e, stop, depth)]
+
+
+def _sources_in(rg: _Region, f: Any, e: ast.AST, stop: frozenset[str] = frozenset(), depth: int = 5) -> list[tuple[Any, ast.AST]]:
+    """_sources, every expression with the function of the region it is written in"""
+    out: list[tuple[Any, ast.AST]] = []
     seen: set[int] = set()
 
     def go(g: Any, x: ast.AST, d: int) -> None:
         if id(x) in seen or d < 0:
             return
         seen.add(id(x))
-        out.append(x)
+        out.append((g, x))
         lc = rg.lc[g.qual]
         params = {a.arg for a in g.params}
         for nm in sorted(names_in(x) - _comp_bound(x) - stop):
@@ -392,7 +438,7 @@ def _sources(rg: _Region, f: Any, e: ast.AST, stop: frozenset[str] = frozenset()
             h = rg.helper(c)
             if h is not None:
                 for r in ast.walk(h.node):
-                    if isinstance(r, ast.Return) and r.value is not None:
+                    if isinstance(r, (ast.Return, ast.Yield, ast.YieldFrom)) and r.value is not None:
                         go(h, r.value, d - 1)
 
     go(f, e, depth)
@@ -713,6 +759,307 @@ def _generated_class(jx: Any, template: str, cls: str) -> ast.ClassDef | None:
     return None
 
 
+WRAPPERS = ("list", "tuple", "iter", "reversed", "sorted", "set", "frozenset")
+LOOKUPS = ("get", "setdefault", "pop", "index", "count", "__contains__", "__getitem__")
+
+
+def _parameter_identity(rep: Report, ix: Any) -> None:
+    """R03.9.  The roles are found by following the data through the region of add_parameters (the function, its private helpers, the
+    generators it iterates, the functions defined inside it), whatever the locals are called and whichever function a statement is in:
+    the declared parameters are `<data>.parameters` (and copies / fallbacks / what a helper makes of them); the parameter under
+    consideration is an element of them (the variable of a loop or comprehension over them, what a generator of the region yields of
+    them, what parameter_from_reference resolves one to, aliases, the parameter of a helper that receives one)."""
+    ap = ix.func("Endpoint.add_parameters")
+    rg = _Region(ix, ap)
+
+    def is_data(g: Any, e: ast.AST) -> bool:
+        """the operation / path item whose parameters are added"""
+        return isinstance(e, ast.Name) and g == ap and e.id == "data"
+
+    def is_declared(g: Any, e: ast.AST) -> bool:
+        """the declared parameters: <data>.parameters, a copy / fallback (`or []`) / selection of them, what a helper makes of them"""
+        if isinstance(e, ast.Attribute):
+            return e.attr == "parameters" and rg.denotes(g, e.value, is_data)
+        if isinstance(e, ast.BoolOp):
+            return any(rg.denotes(g, v, is_declared) for v in e.values)
+        if isinstance(e, ast.IfExp):
+            return rg.denotes(g, e.body, is_declared) or rg.denotes(g, e.orelse, is_declared)
+        if isinstance(e, (ast.ListComp, ast.GeneratorExp, ast.SetComp)):
+            return rg.denotes(g, e.elt, is_current)
+        if isinstance(e, ast.Call):
+            if call_name(e) in WRAPPERS and len(e.args) == 1:
+                return rg.denotes(g, e.args[0], is_declared)
+            h = rg.helper(e)
+            if h is not None:
+                return (any(rg.denotes(h, v, is_declared if k else is_current) for k, v in rg.yields(h))
+                        or any(rg.denotes(h, r, is_declared) for r in rg.results(h)))
+            return False
+        if isinstance(e, ast.Name) and any(isinstance(v, ast.List) and not v.elts for _, v in rg.bindings(g, e.id)):
+            # a list that is filled with them
+            puts = [c for c in calls_in(g.node) if isinstance(c.func, ast.Attribute) and c.func.attr == "append" and len(c.args) == 1
+                    and isinstance(c.func.value, ast.Name) and c.func.value.id == e.id]
+            return bool(puts) and all(rg.denotes(g, c.args[0], is_current) for c in puts)
+        return False
+
+    def is_current(g: Any, e: ast.AST) -> bool:
+        """the declared parameter under consideration"""
+        if isinstance(e, ast.Name):
+            for pos, it in rg.loops(g, e.id):
+                if pos == "" and rg.denotes(g, it, is_declared):
+                    return True
+                if pos == "[1]" and isinstance(it, ast.Call) and call_name(it) == "enumerate" and it.args and rg.denotes(g, it.args[0], is_declared):
+                    return True
+            return False
+        if isinstance(e, ast.Subscript):
+            return rg.denotes(g, e.value, is_declared)
+        if isinstance(e, ast.IfExp):
+            return rg.denotes(g, e.body, is_current) or rg.denotes(g, e.orelse, is_current)
+        if isinstance(e, ast.Call):
+            args = [*e.args, *[k.value for k in e.keywords]]
+            cn = call_name(e).rsplit(".", 1)[-1]
+            if cn == "parameter_from_reference" or cn == "cast":
+                return any(rg.denotes(g, a, is_current) for a in args)
+            if cn == "next" and args:
+                return rg.denotes(g, args[0], is_declared)
+            h = rg.helper(e)
+            return h is not None and any(rg.denotes(h, r, is_current) for r in rg.results(h))
+        return False
+
+    def is_name(g: Any, e: ast.AST) -> bool:
+        return isinstance(e, ast.Attribute) and e.attr == "name" and rg.denotes(g, e.value, is_current)
+
+    def is_location(g: Any, e: ast.AST) -> bool:
+        if isinstance(e, ast.Attribute):
+            return rg.denotes(g, e.value, is_current) if e.attr == "param_in" else e.attr in ("value", "name") and rg.denotes(g, e.value, is_location)
+        return isinstance(e, ast.Call) and call_name(e) == "str" and len(e.args) == 1 and rg.denotes(g, e.args[0], is_location)
+
+    def parts(e: ast.AST) -> list[ast.AST] | None:
+        """the values a composed key is made of: (a, b), [a, b], f"{a}:{b}", a + ":" + b, "%s:%s" % (a, b), "{}:{}".format(a, b), ":".join(..)"""
+        if isinstance(e, (ast.Tuple, ast.List, ast.Set)):
+            return list(e.elts)
+        if isinstance(e, ast.JoinedStr):
+            return [v.value for v in e.values if isinstance(v, ast.FormattedValue)]
+        if isinstance(e, ast.BinOp) and isinstance(e.op, (ast.Add, ast.Mod)):
+            return [e.left, e.right]
+        if isinstance(e, ast.Call) and (call_name(e) in ("tuple", "frozenset", "str", "hash") or (isinstance(e.func, ast.Attribute) and e.func.attr in ("format", "join"))):
+            return [*e.args, *[k.value for k in e.keywords]]
+        return None
+
+    def has_name(g: Any, e: ast.AST) -> bool:
+        """a key made from the parameter's name"""
+        ps = parts(e)
+        return ps is not None and any(rg.denotes(g, x, is_name) or rg.denotes(g, x, has_name) for x in ps)
+
+    def has_location(g: Any, e: ast.AST) -> bool:
+        ps = parts(e)
+        return ps is not None and any(rg.denotes(g, x, is_location) or rg.denotes(g, x, has_location) for x in ps)
+
+    def is_full_key(g: Any, e: ast.AST) -> bool:
+        return has_name(g, e) and has_location(g, e)
+
+    current = {g.qual: {nm for nm in sorted({n.id for n in ast.walk(g.node) if isinstance(n, ast.Name)} | {a.arg for a in ast.walk(g.node) if isinstance(a, ast.arg)})
+                        if rg.denotes(g, ast.Name(id=nm, ctx=ast.Load()), is_current)} for g in rg.funcs}
+    rep.require(any(current.values()), "the declared parameters (data.parameters) are iterated somewhere in the region of add_parameters")
+    everybody = frozenset(n for ns in current.values() for n in ns)
+
+    def role_text(g: Any, n: ast.AST) -> str:
+        """the test with every local replaced by its role (the parameter under consideration / some other local)"""
+        import copy
+
+        local = set(rg.lc[g.qual].defs) | {a.arg for a in ast.walk(g.node) if isinstance(a, ast.arg)}
+
+        class R(ast.NodeTransformer):
+            def visit_Name(self, x: ast.Name) -> ast.AST:
+                if x.id not in local:
+                    return x
+                probe = ast.Name(id=x.id, ctx=ast.Load())
+                role = ("PARAMETER" if x.id in current[g.qual] else "KEY" if rg.denotes(g, probe, has_name) else "NAME" if rg.denotes(g, probe, is_name) else "_")
+                return ast.copy_location(ast.Name(id=role, ctx=x.ctx), x)
+
+        return ast.unparse(R().visit(copy.deepcopy(n)))[:100]
+
+    def constant(e: ast.AST) -> bool:
+        return isinstance(e, ast.Constant) or (isinstance(e, (ast.Tuple, ast.List, ast.Set)) and all(constant(x) for x in e.elts))
+
+    # identity tests: every comparison / membership test / lookup in the region that is made with the name of the parameter under
+    # consideration or with a key made from it
+    n_id = 0
+    seen: set[int] = set()
+    for g in rg.funcs:
+        comps = [k for k in ast.walk(g.node) if isinstance(k, (ast.GeneratorExp, ast.ListComp, ast.SetComp, ast.DictComp))]
+        for n in ast.walk(g.node):
+            if id(n) in seen:
+                continue
+            seen.add(id(n))
+            pairs: list[tuple[ast.AST, ast.AST]] = []
+            if isinstance(n, ast.Compare):
+                xs = [n.left, *n.comparators]
+                for a, op, b in zip(xs, n.ops, xs[1:]):
+                    if isinstance(op, (ast.Eq, ast.NotEq, ast.In, ast.NotIn)):
+                        pairs += [(a, b), (b, a)]
+            elif isinstance(n, ast.Call) and isinstance(n.func, ast.Attribute) and n.func.attr in LOOKUPS and n.args:
+                pairs = [(n.args[0], n.func.value)]
+            elif isinstance(n, ast.Subscript) and isinstance(n.ctx, ast.Load):
+                pairs = [(n.slice, n.value)]
+            for idn, other in pairs:
+                key = rg.denotes(g, idn, has_name)
+                if not key and not rg.denotes(g, idn, is_name):
+                    continue
+                if constant(other):
+                    continue        # a test for one particular name, not a comparison of two parameters
+                n_id += 1
+                if key:
+                    both = rg.denotes(g, idn, is_full_key)
+                    msg = "the key a parameter is recognised by is made from its name without its location"
+                else:
+                    # compared by name alone: the location must have selected what the name is compared against - it flows into the other
+                    # operand (for a comparison inside a comprehension: into the comprehension), or the parameter is handed over as a whole
+                    unit = next((k for k in comps if any(x is n for x in ast.walk(k))), other)
+                    flow = _sources_in(rg, g, unit, stop=everybody)
+                    both = any(is_location(h, x) for h, e in flow for x in ast.walk(e) if isinstance(x, ast.Attribute)) or any(
+                        isinstance(a, ast.Name) and rg.denotes(h, a, is_current) for h, e in flow for c in calls_in(e) for a in [*c.args, *[k.value for k in c.keywords]])
+                    msg = ("a parameter is skipped / rejected by name alone: a path-item parameter with the same name in another location "
+                           "is lost")
+                rep.check(both, "R03.9", f"Endpoint.add_parameters::identity[{role_text(g, n)}]", msg, where(g, n), lhs=norm(n)[:100],
+                          rhs="the test involves the name and the location of the parameter")
+    rep.floor("parameter_identity_tests", n_id, 1)
+
+
+IDENTITY_FIELDS = ("name", "param_in")
+
+
+def _wire_name_handover(rep: Report, ix: Any) -> None:
+    """R03.11.  Between the document and the templates a parameter is rebuilt more than once (a Parameter for components/parameters, a
+    Property for the endpoint): each time its schema is handed on together with a name (a location), these are the name (the location)
+    of the parameter the schema is taken from.  Sites are found by what they pass (`<x>.param_schema`, in place, through a local or
+    through a parameter that every caller fills with it), not by whom they call; names and schemas that the calling function received
+    itself are followed to the callers of that function."""
+    import copy
+
+    tops = [f for f in ix.all_functions if f.parent is None]
+    lcs = {f.qual: Locals(f.node) for f in tops}
+    by_name: dict[str, list[Any]] = {}
+    for f in ix.all_functions:
+        by_name.setdefault(f.name, []).append(f)
+    called: dict[str, list[tuple[Any, ast.Call]]] = {}
+    for g in tops:
+        for c in calls_in(g.node):
+            called.setdefault(call_name(c).rsplit(".", 1)[-1], []).append((g, c))
+
+    def scope_of(f: Any, n: ast.AST) -> ast.AST:
+        """the innermost function definition (f itself or a function defined inside it) that contains the node"""
+        best = f.node
+        for d in ast.walk(f.node):
+            if isinstance(d, (ast.FunctionDef, ast.AsyncFunctionDef)) and d is not f.node and any(x is n for x in ast.walk(d)) \
+                    and any(x is d for x in ast.walk(best)):
+                best = d
+        return best
+
+    def resolve(f: Any, e: ast.AST, depth: int = 4) -> ast.AST:
+        """the expression a local stands for (bound once, by a plain assignment)"""
+        while isinstance(e, ast.Name) and depth:
+            v = _only_value(lcs[f.qual], e.id)
+            if v is None:
+                break
+            e, depth = v, depth - 1
+        return e.value if isinstance(e, ast.NamedExpr) else e
+
+    def arguments(c: ast.Call, h: Any = None) -> dict[str, ast.AST] | None:
+        """parameter name -> argument (positional arguments through the signature of the function called: h, or the only function of
+        that name the package defines); None when the call spreads a sequence / mapping"""
+        if any(isinstance(a, ast.Starred) for a in c.args) or any(k.arg is None for k in c.keywords):
+            return None
+        if h is None:
+            hs = by_name.get(call_name(c).rsplit(".", 1)[-1], [])
+            h = hs[0] if len(hs) == 1 else None
+        return {**(_Region.args_for(h, c) if h is not None and c.args else {}), **{k.arg: k.value for k in c.keywords}}
+
+    def callers(f: Any, d: ast.AST) -> list[tuple[Any, ast.Call, dict[str, ast.AST] | None]] | None:
+        """(function, call, arguments) of the calls of the function definition d of f: for f itself every call of that name in the package
+        (None when the package defines several functions of that name: whose calls they are is not known), for a function defined
+        inside f the calls made in f"""
+        if d is not f.node:
+            return [(f, c, arguments(c, _FakeDef(d))) for c in calls_in(f.node) if isinstance(c.func, ast.Name) and c.func.id == d.name]
+        if len(by_name.get(f.name, [])) != 1:
+            return None
+        return [(g, c, arguments(c, f)) for g, c in called.get(f.name, [])]
+
+    def received(f: Any, at: ast.AST, *es: ast.AST) -> tuple[ast.AST, set[str]]:
+        """(function definition around `at`, the parameters of it - never rebound - that the expressions read)"""
+        d = scope_of(f, at)
+        a = d.args
+        return d, ({n for e in es for n in names_in(e)} & {x.arg for x in [*a.posonlyargs, *a.args, *a.kwonlyargs]}) - set(lcs[f.qual].defs)
+
+    def at_caller(e: ast.AST, args: dict[str, ast.AST], ps: set[str]) -> ast.AST:
+        """the expression as the caller would have written it: parameters replaced by the arguments"""
+        class S(ast.NodeTransformer):
+            def visit_Name(self, n: ast.Name) -> ast.AST:
+                return copy.deepcopy(args[n.id]) if n.id in ps else n
+
+        return S().visit(copy.deepcopy(e))
+
+    def is_schema(f: Any, at: ast.AST, v: ast.AST, depth: int = 2) -> bool:
+        """v is the schema of a document parameter: `<x>.param_schema`, or a parameter of the function that every caller fills with one"""
+        rv = resolve(f, v)
+        if isinstance(rv, ast.Attribute):
+            return rv.attr == "param_schema"
+        if not (isinstance(rv, ast.Name) and depth):
+            return False
+        d, ps = received(f, at, rv)
+        sites = callers(f, d) if ps else None
+        return bool(sites) and all(args is not None and rv.id in args and is_schema(g, c, args[rv.id], depth - 1) for g, c, args in sites)
+
+    def carries(f: Any, at: ast.AST, v: ast.AST, sx: ast.AST, field: str, depth: int = 3) -> tuple[bool, str]:
+        """v is `<x>.<field>` of the parameter <x> whose schema sx is (`<x>.param_schema`): as written in f at `at`, through locals, or -
+        when they are made from parameters of the function - as every caller of the function writes them"""
+        rv, rs = resolve(f, v), resolve(f, sx)
+        if isinstance(rs, ast.Attribute) and rs.attr == "param_schema" and isinstance(rv, ast.Attribute) and rv.attr == field \
+                and norm(resolve(f, rv.value)) == norm(resolve(f, rs.value)):
+            return True, norm(rv)
+        d, ps = received(f, at, rv, rs)
+        if not (depth and ps):
+            return False, norm(rv)[:80]
+        sites = callers(f, d)
+        rep.require(sites is not None, f"the calls of {f.name}, which receives `{'`, `'.join(sorted(ps))}`")
+        for g, c, args in sites:
+            rep.require(args is not None, f"arguments of the call of {f.name} in {short(g)}")
+            if not ps <= set(args):
+                return False, f"{short(g)}: {norm(c)[:80]}"
+            ok, why = carries(g, c, at_caller(rv, args, ps), at_caller(rs, args, ps), field, depth - 1)
+            if not ok:
+                return False, f"{short(g)}: {why}"
+        return True, f"{len(sites)} call(s) of {getattr(d, 'name', f.name)}"
+
+    n_sites = 0
+    for f in tops:
+        for c in calls_in(f.node):
+            args = arguments(c)
+            fields = [k for k in IDENTITY_FIELDS if args and k in args]
+            if not fields:
+                continue
+            sxs = [v for k, v in args.items() if k not in IDENTITY_FIELDS and is_schema(f, c, v)]
+            if not sxs:
+                continue
+            n_sites += 1
+            callee = call_name(c).rsplit(".", 1)[-1]
+            for field in fields:
+                res = [carries(f, c, args[field], sx, field) for sx in sxs]
+                rep.check(all(ok for ok, _ in res), "R03.11", f"{callee}::{field}",
+                          f"`{callee}` receives the schema of a document parameter (`{norm(resolve(f, sxs[0]))}`) but its `{field}` is not that parameter's "
+                          f"`{field}` ({[why for ok, why in res if not ok][:1]}): the argument would be sent under another "
+                          f"{'name' if field == 'name' else 'location'} than the document declares", where(f, c), lhs=[why for _, why in res],
+                          rhs=f"<the parameter whose schema is passed>.{field}")
+    rep.floor("parameter_schema_handovers", n_sites, 1)
+
+
+class _FakeDef:
+    """a function defined inside another one, as far as _Region.args_for needs to know it"""
+
+    def __init__(self, node: Any):
+        self.node = node
+        self.kind = "function"
+
+
 def run(rep: Report, ctx: Any) -> str:
     ix = ctx.py
     jx = ctx.jinja
@@ -745,8 +1092,15 @@ def run(rep: Report, ctx: Any) -> str:
                        "a copy that sets is_multipart_body flows into Body(prop=) and into what is registered as classes_by_name; nowhere in "
                        "the package is the flag of an existing object set to anything but True or `<its old value> or ...` (another use of "
                        "the same class, as JSON or form data, must not take the method away)")
-    rep.rule("R03.9", "parameter identity is (name, location): every comparison of the current parameter's name (or of a key built from it) in "
-                      "add_parameters also receives its location - in the key, or in what selects the collection compared against")
+    rep.rule("R03.9", "parameter identity is (name, location): wherever the region of add_parameters (the function, its private helpers, the "
+                      "generators it iterates, its closures) compares, tests for membership or looks up the name of the declared parameter "
+                      "under consideration (an element of data.parameters, however it got there) or a key made from that name, the "
+                      "parameter's location takes part as well - in the key, or in what selects the collection compared against")
+    rep.rule("R03.11", "the wire name and the location travel with the schema: every call in the package that hands on the schema of a document "
+                       "parameter (`<x>.param_schema`, in place, through a local, or through a parameter that every caller fills with it) "
+                       "together with a `name` / `param_in` passes `<x>.name` / `<x>.param_in` of that same parameter - written in place, held in "
+                       "a local, or made from parameters of the calling function, in which case every call of that function is checked instead "
+                       "(Parameter(...) rebuilt for components/parameters, property_from_data(...) for the endpoint's argument)")
 
     # ---- R03.1 -------------------------------------------------------------------------------------------------------
     sites = {}
@@ -1340,76 +1694,8 @@ def run(rep: Report, ctx: Any) -> str:
               "async httpx client", where=f"{PKG}/templates/client.py.jinja", lhs=built, rhs={"httpx.Client": True, "httpx.AsyncClient": True})
 
     # ---- R03.9 ------------------------------------------------------------------------------------------------------------------
-    ap = ix.func("Endpoint.add_parameters")
-    n_id = 0
-    ploops = [n for n in ast.walk(ap.node) if isinstance(n, ast.For) and norm(n.iter) == "data.parameters"]
-    rep.require(ploops, "loop over data.parameters")
-    loop = ploops[0]
-    arg_ = _Region(ix, ap)
-    al = arg_.lc[ap.qual]
-    # the parameter under consideration, whatever the function calls it: the loop variable, what parameter_from_reference resolves it
-    # to, and aliases of these
-    P = {t.id for t in ast.walk(loop.target) if isinstance(t, ast.Name)}
-    grew = True
-    while grew:
-        grew = False
-        for nm, ds in al.defs.items():
-            if nm in P:
-                continue
-            for kind, _, v in ds:
-                if kind == "assign" and ((isinstance(v, ast.Name) and v.id in P) or (
-                        isinstance(v, ast.Call) and call_name(v).rsplit(".", 1)[-1] == "parameter_from_reference" and names_in(v) & P)):
-                    P.add(nm)
-                    grew = True
-    pv = "|".join(sorted(P))
-
-    def p_attr(e: ast.AST, attr: str) -> bool:
-        return isinstance(e, ast.Attribute) and e.attr == attr and isinstance(e.value, ast.Name) and e.value.id in P
-
-    def is_key(e: ast.AST) -> bool:
-        return isinstance(e, ast.Tuple) and any(p_attr(x, "name") for x in e.elts)
-
-    def full_key(e: ast.Tuple) -> bool:
-        return all(p_attr(x, "name") or p_attr(x, "param_in") for x in e.elts) and any(p_attr(x, "param_in") for x in e.elts)
-
-    def identity_of(e: ast.AST, depth: int = 3) -> ast.AST | None:
-        """the parameter's name, or a key built from it, that e stands for (through local aliases)"""
-        if p_attr(e, "name") or is_key(e):
-            return e
-        if isinstance(e, ast.Name) and e.id not in P and depth:
-            for v in _stmt_values(al, e.id):
-                r = identity_of(v, depth - 1)
-                if r is not None:
-                    return r
-        return None
-
-    # identity keys: tuples that contain <p>.name
-    keys = [n for n in ast.walk(loop) if is_key(n)]
-    for v in keys:
-        rep.check(full_key(v), "R03.9", "Endpoint.add_parameters::unique_param",
-                  "the de-duplication key is not (name, location)", where(ap, v), lhs=norm(v), rhs=f"(<{pv}>.name, <{pv}>.param_in)")
-    rep.check(bool(keys), "R03.9", "Endpoint.add_parameters::unique_param", "no (name, location) key is built", where(ap, ap.node))
-    comps = [n for n in ast.walk(loop) if isinstance(n, (ast.GeneratorExp, ast.ListComp, ast.SetComp, ast.DictComp))]
-    cmps = [n for n in ast.walk(loop) if isinstance(n, ast.Compare) and len(n.ops) == 1 and isinstance(n.ops[0], (ast.Eq, ast.NotEq, ast.In, ast.NotIn))]
-    for n in sorted(cmps, key=lambda c: (c.lineno, c.col_offset)):
-        sides = [n.left, n.comparators[0]]
-        ident = [identity_of(x) for x in sides]
-        if ident[0] is None and ident[1] is None:
-            continue
-        n_id += 1
-        idn, other = (ident[0], sides[1]) if ident[0] is not None else (ident[1], sides[0])
-        if is_key(idn):
-            both = full_key(idn)
-        else:
-            # compared by name alone: the location must have selected what the name is compared against - it flows into the other
-            # operand (for a comparison inside a comprehension: into the comprehension), or the parameter is handed over as a whole
-            unit = next((k for k in comps if any(x is n for x in ast.walk(k))), other)
-            flow = _sources(arg_, ap, unit, stop=frozenset(P))
-            both = any(p_attr(x, "param_in") for e in flow for x in ast.walk(e)) or any(
-                isinstance(a, ast.Name) and a.id in P for e in flow for c in calls_in(e) for a in [*c.args, *[k.value for k in c.keywords]])
-        rep.check(both, "R03.9", f"Endpoint.add_parameters::identity[{n_id}]",
-                  "a parameter is skipped / rejected by name alone: a path-item parameter with the same name in another location is lost",
-                  where(ap, n), lhs=norm(n)[:100], rhs="comparison involves the name and the location")
-    rep.floor("parameter_identity_tests", n_id, 1)
+    _parameter_identity(rep, ix)
+    # ---- R03.11 -----------------------------------------------------------------------------------------------------------------
+    _wire_name_handover(rep, ix)
     rep.not_decided += ["the bytes httpx actually sends"]
     return LEVEL
